@@ -83,6 +83,18 @@ def run(rep: Report) -> None:
                     break
             rep.check(ok, "turnrate-scale-invariance", lab, "Node.get_upstream_speed_and_flow", detail,
                       key=f"scale|{cfg_class(cfg)}|{cfg.impl}")
+            # the share is present: the first-segment density update depends on the link's own
+            # turn rate and on the leaving family's turn rates
+            t = p.outputs.get("SELF", {}).get("rho")
+            if E.is_term(t):
+                nz2 = M.make_normalizer(cfg, with_domain=False)
+                pos = None if cfg.n1 else ("first", 0)
+                sup = M.support(t, pos, env, nz2)
+                need = {("s", "SELF.turnrate"), ("s", "UOUT*.turnrate")}
+                rep.check(need <= sup, "turnrate-share-present", lab, "Node.get_upstream_speed_and_flow",
+                          "several links leave the node but the inflow of this link does not depend on "
+                          f"{sorted(k[1] for k in need - sup)}: the node inflow is not split by turn rates",
+                          key=f"share|{cfg_class(cfg)}|{cfg.impl}")
     rep.floor("bifurcation configurations checked for scale invariance", n_scale, 100)
 
     # (a) names: `.name` loads in the dynamics flow only into labels / messages
